@@ -9,7 +9,7 @@ from .ip_checks import Sess, exc_name
 from .jun_checks import ALPHA, ref_decrypt
 
 SALTS = ["s", "TESTSALT", "", "!x", "Bsalt", "iq", "éa", "7", "Q"]
-WRAPS = ["{}", '"{}"', "'{}'", "[{}]", '"{}";', "{},", "{{{}}}", "\\\"{}\\\"", "{};"]
+WRAPS = ["{}", '"{}"', "'{}'", "[{}]", '"{}";', "{},", "{{{}}}", "\\\"{}\\\"", "{};", "[[{}]]", "''{}''", '"{}";;', '"{}"]],', "[{}]]"]
 
 
 def spec_class(s):
@@ -119,6 +119,17 @@ def gen_history(rng, n, classes=None, pool_size=6, same_plain9=True, nsalts=2, s
         pool.append(("\\" + "c0mm%d" % rng.randint(0, 99), "textbs"))
         if classes is None or "jun9" in classes:
             from .jun_checks import ref_encrypt
+            from .jun_checks import lenient_decrypt
+            pq = "s3cr" + "".join(rng.choice("ghjkmnpq") for _ in range(3))
+            for extra_ in ("", "}", ";", ",", "]", '"', " "):                   # plaintexts that differ only by enclosing characters
+                pool.append((ref_encrypt(pq + extra_, rng.choice(ALPHA)), "jun9"))
+            full = ref_encrypt("key" + rng.choice("qrst") + "z" * rng.randint(0, 3), rng.choice(ALPHA))
+            torn = full[:-1]                                                   # a torn `$9$` string is an (undecodable) secret of its own ...
+            pool.append((torn, "jun9"))
+            try:
+                pool.append((ref_encrypt(lenient_decrypt(torn), rng.choice(ALPHA)), "jun9"))   # ... not the secret a sloppy decoder makes of it
+            except Exception:  # noqa
+                pass
             pool.append(("$9$Be4Ehy_b2GDkevYo", "jun9"))                       # `$9$`-shaped but not decodable (underscore)
             pool.append(("$9$abc", "jun9"))
             hb = rng.choice(ALPHA)
@@ -247,6 +258,40 @@ def c07_scope(res, pid, rng, tier):
                 if m and (m.group(0) in a or any(m.group(0) in x for _, x in g1[i])):
                     fails.append({"kind": "the secret survives in the output or in an INFO+ log record", "salt": cfg.salt,
                                   "line": lines1[i], "output": a, "logs": g1[i]})
+    # communities that merely start with a well-known BGP community name; reserved words of an EARLIER anonymizer
+    fa.FaCfg(salt="s", pwd=True, reserved=["Tr0ub4dor-3x", "hunter2x"]).build()
+    probes = [("set community %s" % s_, s_) for s_ in ("none-Zk81qPw", "internet.4hGq7", "no-export/s3cr3t", "gshut!x9Y2", "local-AS#k3y", "none.x")]
+    probes += [("username bob password %s" % s_, s_) for s_ in ("Tr0ub4dor-3x", "hunter2x")]
+    probes += [("snmp-server community %s RO" % s_, s_) for s_ in ("Tr0ub4dor-3x",)]
+    try:
+        outs_p, logs_p = run_lines(fa.FaCfg(salt=SALTS[res.seed % len(SALTS)], pwd=True), [p_[0] + "\n" for p_ in probes])
+    except Exception as e:  # noqa
+        fails.append({"kind": "anonymize_io raised on a recognised line form", "exc": repr(e)})
+        outs_p, logs_p = [], []
+    for (ln, s_), out, lg in zip(probes, outs_p, logs_p):
+        res.evaluations += 1
+        if s_ in out or any(s_ in m for _, m in lg):
+            fails.append({"kind": "the secret survives in the output or in an INFO+ log record", "line": ln, "output": out,
+                          "earlier_in_this_process": "an anonymizer with reserved words ['Tr0ub4dor-3x', 'hunter2x'] was constructed"})
+    # very long lines: the secret around a multiple of 8192 characters from the start of the line
+    for off in (8192, 16384, 65536):
+        for shift in (0, 5, 31, 40):
+            key_ = "".join(rng.choice(L.B64[2:]) for _ in range(32))
+            pad = '{"Description": "' + "x" * (off - 17 - 20 - shift) + '", '
+            ln = pad + '"PreSharedKey": "%s", "Tail": 1}' % key_
+            com = "Qz" + "".join(rng.choice("ghjkmnpq") for _ in range(12))
+            ln2 = "snmp-server " + "y" * (off - 12 - 11 - shift) + " community %s RO" % com
+            for line_, sec_ in ((ln, key_), (ln2, com)):
+                try:
+                    o_, g_ = run_lines(fa.FaCfg(salt="s", pwd=True), [line_ + "\n"])
+                except Exception as e:  # noqa
+                    fails.append({"kind": "anonymize_io raised on a long line", "exc": repr(e), "line_length": len(line_)})
+                    continue
+                res.evaluations += 1
+                if any(sec_[i:i + 8] in o_[0] for i in range(0, len(sec_) - 7)):
+                    k_ = o_[0].find(sec_[:8])
+                    fails.append({"kind": "(part of) the secret survives on a very long line", "line_length": len(line_), "secret_offset": line_.find(sec_),
+                                  "secret": sec_, "output_around": o_[0][max(0, k_ - 40): k_ + 60]})
     # two secrets recognised by the same line pattern on ONE line: neither may survive (which pseudonym the second one
     # gets is the C08 known finding, not checked here)
     cfg = fa.FaCfg(salt=SALTS[res.seed % len(SALTS)], pwd=True)
